@@ -262,6 +262,7 @@ type genRun struct {
 	pending bool // a fault whose recovery has not been observed yet
 	dead    bool
 	vcount  int
+	unit    int // bytes one ordinary record occupies at most
 	nkeys   int
 	imgs    int
 	stats   map[string]int
@@ -365,13 +366,17 @@ func (g *genRun) finishClient() {
 func (g *genRun) val(v int) (int, []byte) {
 	g.vcount++
 	n := 120 + g.vcount%23
-	if v == 3 { // a value of BigVals: the record alone exceeds the file-size limit
-		n = int(g.cfg.Limit) + 30 + g.vcount%17
+	if v == 3 { // a value of BigVals: the record alone exceeds every file-size limit an Open may choose
+		n = int(g.limBytes(3)) + 30 + g.vcount%17
 	}
 	return g.e.V.New(n)
 }
 
 func (g *genRun) key(k int) []byte { return g.e.U.Key(k) }
+
+// limBytes: the DataFileSize under which n ordinary records fit a file and the next one rotates
+// (a limit of n units in the specification)
+func (g *genRun) limBytes(n int) int64 { return int64(n*g.unit + 40) }
 
 // observe reads every key and the key list of the open database (quiescent instants only).
 func (g *genRun) observe() (vals []int, keys []int, geterr string, ok bool) {
@@ -686,8 +691,9 @@ func runScript(en *Env, sc *gscript, idx int, stats map[string]int) {
 	vs := h.NewValues()
 	klen := len(u.Key(1))
 	// two ordinary records fit a file, the third rotates (Limit = 2 units in the specification)
-	cfg := h.Cfg{Index: h.IndexTypes[idx%3], Shards: []int{1, 4, 16}[(idx/3)%3], IO: "std", Limit: int64(2*(h.RecLen(klen, 143)+h.ChunkHdr) + 40), Sync: sc.Sync}
-	g := &genRun{en: en, cfg: cfg, dir: dir, dirs: []string{dir}, written: map[string]int64{}, synced: map[string]int64{}, nkeys: nkeys, stats: stats}
+	unit := h.RecLen(klen, 143) + h.ChunkHdr
+	cfg := h.Cfg{Index: h.IndexTypes[idx%3], Shards: []int{1, 4, 16}[(idx/3)%3], IO: "std", Limit: int64(2*unit + 40), Sync: sc.Sync}
+	g := &genRun{en: en, cfg: cfg, dir: dir, dirs: []string{dir}, written: map[string]int64{}, synced: map[string]int64{}, nkeys: nkeys, stats: stats, unit: unit}
 	g.s = &gsched{roles: map[int64]*grole{}, run: g}
 	g.e = h.NewEng(dir, en.Work+"/scratch", cfg, u, vs, en.T)
 	defer func() {
@@ -816,6 +822,9 @@ func runScript(en *Env, sc *gscript, idx int, stats map[string]int) {
 			g.finishClient()
 			g.db = nil
 		case "openlock":
+			if st.K > 0 { // the file-size limit this Open chooses (units of the specification)
+				g.cfg.Limit = g.limBytes(st.K)
+			}
 			g.openStart(false)
 		case "adoptstep":
 			if r := g.opener; r != nil {
